@@ -7,7 +7,7 @@ import os
 import sys
 import traceback
 
-sys.path.insert(0, "/verif/harness")
+sys.path.insert(0, os.path.dirname(os.path.abspath(__file__)))
 import common  # noqa: E402
 
 
